@@ -133,6 +133,7 @@ void Stats::absorb(const simsched::SchedResult &r) {
   if (r.preemptions > 0) c["sched.ops_with_preemption"]++;
   c["sched.ops"]++;
   c["sched.decision_points"] += r.decision_points;
+  if (r.mem_accesses) { c["sched.mem_accesses_instrumented"] += r.mem_accesses; c["sched.mem_sched_points"] += r.mem_sched_points; }
   distinct_traces.insert(r.trace_hash);
   distinct_sigs.insert(r.sync_sig);
 }
